@@ -121,7 +121,7 @@ theorem base_agreeR (F : Nat) (ih : ∀ F', F' < F → LoopR F') (tb : Ty) (o : 
     (hsh : sh cur cur' = true) (h : decodeOne F tb o w cur = some v) :
     wireNum w = (codecFor tb o).wire.num ∧ (isStructTy tb = true → (codecFor tb o).wire = .varlen) ∧
       ∃ data, DataFor (isStructTy tb) p data ∧
-        ∃ v', sh v v' = true ∧ ∃ f, decode f (codecFor tb o) data cur' fl = .ok (v', data.length) := by
+        ∃ v', sh v v' = true ∧ ∃ f, decodeU f (codecFor tb o) data cur' fl = .ok (v', data.length) := by
   by_cases hs : isStructTy tb = true
   · cases tb <;> simp only [isStructTy] at hs <;> try (exact absurd hs (by decide))
     rename_i fs'
@@ -167,7 +167,7 @@ theorem field_agreeR (F : Nat) (ih : ∀ F', F' < F → LoopR F') (t : Ty) (o : 
     (h : decodeOne F (deref t) o w (unwrapPtr t cur) = some v) :
     wireNum w = (codecFor t o).wire.num ∧ (isEmb t = true → (codecFor t o).wire = .varlen) ∧
       ∃ data, DataFor (isEmb t) p data ∧
-        ∃ v', sh (wrapPtr t v) v' = true ∧ ∃ f, decode f (codecFor t o) data cur' fl = .ok (v', data.length) := by
+        ∃ v', sh (wrapPtr t v) v' = true ∧ ∃ f, decodeU f (codecFor t o) data cur' fl = .ok (v', data.length) := by
   by_cases hptr : isPtr t = true
   · cases t <;> simp only [isPtr] at hptr <;> try (exact absurd hptr (by decide))
     rename_i t'
@@ -212,7 +212,7 @@ theorem slice_agreeR (F : Nat) (ih : ∀ F', F' < F → LoopR F') (e : Ty) (o : 
     (hp : Pay w p) (h : decodeOne F e o w (Spec.Protobuf.zeroOf e) = some x) :
     wireNum w = (codecOf e).wire.num ∧ (isStructTy e = true → (codecOf e).wire = .varlen) ∧
       ∃ data, DataFor (isStructTy e) p data ∧
-        ∃ l, ∃ f, decode f (.slice (codecOf e) num (codecOf e).wire (isStructTy e)) data cur' fl
+        ∃ l, ∃ f, decodeU f (.slice (codecOf e) num (codecOf e).wire (isStructTy e)) data cur' fl
           = .ok (.list l, data.length) := by
   simp only [tyOKM, elemTy, Bool.and_eq_true, Bool.not_eq_true'] at ht
   simp only [optOK, Bool.and_eq_true, Bool.not_eq_true'] at ho
@@ -226,19 +226,19 @@ theorem slice_agreeR (F : Nat) (ih : ∀ F', F' < F → LoopR F') (e : Ty) (o : 
   rw [hc] at hw hv hf
   refine ⟨hw, hv, data, hdat,
     Vals.ofList ((match cur' with | .list vs => vs | _ => Vals.nil).toList ++ [x']), f + 1, ?_⟩
-  simp only [decode, hf]
+  simp only [decodeU, hf]
   cases cur' <;> rfl
 
 /-- one entry of a map field, zero-length or not: the map codec succeeds and leaves a map in the slot -/
 theorem map_agreeR (F : Nat) (ih : ∀ F', F' < F → LoopR F') (kt vt : Ty) (num : Nat) (eb : Bytes) (cur' : Val)
     (evs : Vals) (fl : Flags) (ht : tyOKM (.map kt vt) = true)
     (h : decodeMsg F (entryF kt vt) eb (Spec.Protobuf.zeroFields (entryF kt vt)) = some evs) :
-    ∃ kvs, ∃ f, decode f (mapC num kt vt) eb cur' fl = .ok (.map kvs, eb.length) := by
+    ∃ kvs, ∃ f, decodeU f (mapC num kt vt) eb cur' fl = .ok (.map kvs, eb.length) := by
   by_cases hnb : eb.isEmpty = true
   · have : eb = [] := by cases eb <;> simp_all
     subst this
     refine ⟨mapCur cur', 1, ?_⟩
-    simp only [mapC, decode, List.isEmpty_nil, if_true, List.length_nil]
+    simp only [mapC, decodeU, List.isEmpty_nil, if_true, List.length_nil]
     cases cur' <;> rfl
   have hnb : eb.isEmpty = false := by simpa using hnb
   cases F with
@@ -256,7 +256,7 @@ theorem map_agreeR (F : Nat) (ih : ∀ F', F' < F → LoopR F') (kt vt : Ty) (nu
       have hlen : evs'.length = 2 := by
         rw [shs_len _ _ hshE, decodeRecs_len F1 _ recs _ evs h]; rfl
       have hevs := vals_two evs' hlen
-      have hent : decode (f + 1) (entryC kt vt) eb (zeroOfCodec (entryC kt vt)) {}
+      have hent : decodeU (f + 1) (entryC kt vt) eb (zeroOfCodec (entryC kt vt)) {}
           = .ok (.struct (.cons (valsGet evs' 0) (.cons (valsGet evs' 1) .nil)), eb.length) := by
         rw [zero_entry kt vt ht, ← fieldsOf_entryF kt vt ht, decode_struct_succ, hf, ← hevs]; rfl
       exact ⟨_, f + 2, by rw [mapC, decode_map_arm (f + 1) _ _ _ _ _ _ eb cur' fl _ _ _ hnb hent]⟩
@@ -359,7 +359,7 @@ skeleton of the reference's (the values themselves are equal if `b` has no zero-
 `unmarshal_of_decode_map_partial`). -/
 theorem unmarshal_accepts_of_decode_map (fs : Fields) (hty : tyOKM (.struct fs) = true) (b : Bytes) (v : Val)
     (h : Spec.Protobuf.decode (.struct fs) b = some v) :
-    ∃ v', unmarshal (.struct fs) b = .ok v' ∧ sh v v' = true := by
+    ∃ v', unmarshalU (.struct fs) b = .ok v' ∧ sh v v' = true := by
   have hty' := hty
   simp only [tyOKM, Bool.and_eq_true, decide_eq_true_eq] at hty'
   obtain ⟨recs, vs, hp, hd, rfl⟩ := spec_decode_struct fs b v h
@@ -370,7 +370,7 @@ theorem unmarshal_accepts_of_decode_map (fs : Fields) (hty : tyOKM (.struct fs) 
     simp only [decodeRecs, Option.some.injEq] at hd
     subst hd
     refine ⟨_, ?_, sh_refl _⟩
-    simp only [unmarshal, List.isEmpty_nil, if_true, zeroOf, zeroFields_eqM fs 1 hty'.1]
+    simp only [unmarshalU, List.isEmpty_nil, if_true, zeroOf, zeroFields_eqM fs 1 hty'.1]
   · obtain ⟨ws', hsh', hseg⟩ := loop_agreeR _ fs { ({ toplevel := true } : Flags) with toplevel := false } b recs _ vs
       _ hty rfl hp hd (shs_refl _)
     obtain ⟨f, hf⟩ := hseg.run
@@ -380,7 +380,7 @@ theorem unmarshal_accepts_of_decode_map (fs : Fields) (hty : tyOKM (.struct fs) 
 
 /-- the Go decoder never rejects (and never panics on) an input that the reference accepts -/
 theorem unmarshal_reject_map (fs : Fields) (hty : tyOKM (.struct fs) = true) (b : Bytes)
-    (h : ∀ v, unmarshal (.struct fs) b ≠ .ok v) : Spec.Protobuf.decode (.struct fs) b = none := by
+    (h : ∀ v, unmarshalU (.struct fs) b ≠ .ok v) : Spec.Protobuf.decode (.struct fs) b = none := by
   cases hd : Spec.Protobuf.decode (.struct fs) b with
   | none => rfl
   | some v =>
